@@ -101,16 +101,17 @@ func goldmarkRender(src string) (res refResult) {
 }
 
 var (
-	namedEntity  = regexp.MustCompile(`&[a-zA-Z0-9]+;`)
-	setextLine   = regexp.MustCompile(`(?m)^[ >]*(=+|-+)[ \t]*$`)
-	headingAttr  = regexp.MustCompile(`(?m)^[ >\-+*0-9.)]*#{1,6}[ \t].* \{[^}]+\}[ \t#]*$`)
-	numericRef   = regexp.MustCompile(`&#(?:[xX][0-9a-fA-F]{1,6}|[0-9]{1,7});`)
-	hrefSrcAttr  = regexp.MustCompile(`(href|src)="([^"]*)"`)
-	looseItem    = regexp.MustCompile(`<li>([^<]+)</li>`)
-	emptyItemRef = "<li></li>"
-	declaration  = regexp.MustCompile(`<![a-zA-Z]`)
-	nulRef       = regexp.MustCompile(`&#(?:0{1,7}|[xX]0{1,6});`)
-	htmlStart15  = regexp.MustCompile(`^[ >\-+*0-9.)]*<(\?|!--|!\[CDATA\[|![A-Za-z]|(?i:pre|script|style|textarea))`)
+	namedEntity      = regexp.MustCompile(`&[a-zA-Z0-9]+;`)
+	setextLine       = regexp.MustCompile(`(?m)^[ >]*(=+|-+)[ \t]*$`)
+	headingAttr      = regexp.MustCompile(`(?m)^[ >\-+*0-9.)]*#{1,6}[ \t].* \{[^}]+\}[ \t#]*$`)
+	numericRef       = regexp.MustCompile(`&#(?:[xX][0-9a-fA-F]{1,6}|[0-9]{1,7});`)
+	hrefSrcAttr      = regexp.MustCompile(`(href|src)="([^"]*)"`)
+	looseItem        = regexp.MustCompile(`<li>([^<]+)</li>`)
+	emptyItemRef     = "<li></li>"
+	delimAfterMarker = regexp.MustCompile(`(?m)^[ >]*>[*_]`)
+	declaration      = regexp.MustCompile(`<![a-zA-Z]`)
+	nulRef           = regexp.MustCompile(`&#(?:0{1,7}|[xX]0{1,6});`)
+	htmlStart15      = regexp.MustCompile(`^[ >\-+*0-9.)]*<(\?|!--|!\[CDATA\[|![A-Za-z]|(?i:pre|script|style|textarea))`)
 )
 
 // entities on which pkg/md and CommonMark agree (both decode them the same way)
@@ -296,6 +297,12 @@ func refQuirk(src string) string {
 				return "goldmark-multiline-html-block"
 			}
 		}
+	}
+	// goldmark takes the block quote marker as the character before a delimiter
+	// that starts the line right after it; the spec counts the line start as
+	// whitespace.
+	if delimAfterMarker.MatchString(src) {
+		return "goldmark-delimiter-after-marker"
 	}
 	// goldmark does not see a hard line break in an escaped backslash followed
 	// by backslash-newline (three backslashes before the line end).
